@@ -79,7 +79,7 @@ def expected(case, rec):
 def model_compare(R, cases, recs, rt, aspects=ASPECTS, shard=120, tag="io"):
     """Returns list of (case index, aspect, model_output). Cases whose model output is DOMAIN are
     counted in R.distribution['outside_domain'] and not compared."""
-    pre = ["From Skv Require Import Show.", "From Gen Require Import Snapshot.",
+    pre = ["From Skv Require Import IoShow.", "From Gen Require Import Snapshot.",
            "Definition RT : list (pstr * res (pstr * pstr)) := " + C.clist(
                (f"({C.cstr(k)}, " + (f"Ok ({C.cstr(v[0])}, {C.cstr(v[1])})" if isinstance(v, list) else f"Raise {v}") + ")"
                 for k, v in rt.items()), "(pstr * res (pstr * pstr))") + ".",
